@@ -3,6 +3,7 @@ import PycsepVerif.Model.PoissonLL
 import PycsepVerif.Model.PoissonTest
 import PycsepVerif.Model.PoissonSession
 import PycsepVerif.Model.PoissonStream
+import PycsepVerif.Model.FloatSum
 /-! driver ops of C05 (Float instance of Model/PoissonLL). Floats travel as IEEE-754 bit patterns.
     `c05_stat <0|1> <rates> <counts>`, `c05_test <L|CL|S|M> <data rows ;-separated> <count rows>`,
     `c05_sim <L|CL|S|M> <data rows> <simulated counts (1-D)>`, `c05_marg <data rows>`, `c05_cells <data rows> <count rows>` (poisson_spatial_likelihood, list of bit patterns),
@@ -146,6 +147,18 @@ def handle : List String → Option String
          | .error .belowMin => "error-below-min"
          | .ok r => showResult r)
       | _, _, _, _, _, _, _ => "bad-op")
+  -- c05_soft <float log-rates of the target bins (bits)> <counts> <float loggamma(w+1) (bits)> <float expected count (bits)> :
+  --         the statistic in the Soft64 layer exactly as numpy evaluates it today — one rounded product per target bin, numpy's
+  --         pairwise summation of both arrays, two rounded subtractions (`PoissonRound.statF` on the pairwise bracketing); answer n/d
+  | ["c05_soft", ls, ws, gs, e] => some (match parseList? parseBitsRat? ls, parseList? parseNat? ws, parseList? parseBitsRat? gs,
+                                               parseBitsRat? e with
+      | some ls, some ws, some gs, some e =>
+        if ls.length ≠ ws.length ∨ ls.length ≠ gs.length then "bad-op" else
+        let prods := (ls.zip ws).map (fun p => Soft64.fmul p.1 (p.2 : Rat))
+        let s1 := FloatSum.pairwiseSum 64 prods
+        let s2 := FloatSum.pairwiseSum 64 gs
+        showRat (Soft64.fsub (Soft64.fsub s1 s2) e)
+      | _, _, _, _ => "bad-op")
   -- c05_ter <data rows (bits)> <events c:b,…> : forecast.get_rates / target_event_rates(scale=False): the rate of every
   --         event's own (cell, magnitude bin), in catalog order; `index-error` when an index is outside the array
   | ["c05_ter", d, evs] => some (match parseList2? parseFloat? d, parseList? parseEv? evs with
